@@ -14,6 +14,9 @@
 (*   cdial{ok} cret{res} cwrite{cls} creply{cls} peof   connection 1, seen from the harness   *)
 (*                         proxy between the client's connection and the listener             *)
 (*   cclose                the client closed connection 1                                     *)
+(*   sread{i,hello} sreply{i} cread{cls}   (TCP only) what the recording connections returned *)
+(*                         by the harness' wrapping listener / connector saw: the handler's   *)
+(*                         first Read, its Write of the greeting, the client's first Read     *)
 (*   act{tunnel}           the ACT line the client wrote (its "tunnel" field)                 *)
 (*   sact{tunnel}          recvAction returned on the server (action.TunnelConnected)         *)
 (*   inb{side}             the harness feeds in-band garbage to a side that has agreed        *)
@@ -25,6 +28,8 @@
 EXTENDS Tunnel, Json, IOUtils, TLCExt
 
 TraceLog == ndJsonDeserialize(IOEnv.VERIF_TRACE)
+
+CONSTANT Blind   \* TRUE: the listening side is not observable (relay): its steps are silent
 
 VARIABLE l
 tvars == <<vars, l>>
@@ -48,7 +53,12 @@ TArrive == /\ IsEvent("arrive") /\ Ev.i \in Strays
                    /\ (~Ev.ok => hpc[Ev.i] = "refused")
                    /\ UNCHANGED vars
 
-TAccept == IsEvent("accept") /\ AAcceptOf(Ev.i)
+(* TCP: Close() of the real listener and a concurrent Accept are not ordered by the log: an   *)
+(* Accept the kernel completed just before the close may be logged after `lclose`; it is then  *)
+(* taken silently just before `lclose` and the event only confirms it.                         *)
+TAccept == /\ IsEvent("accept")
+           /\ \/ AAcceptOf(Ev.i)
+              \/ (~Rendezvous /\ ~lopen /\ hpc[Ev.i] \notin {"none", "refused", "queued"} /\ UNCHANGED vars)
 
 (* whoever closed the listener: from here on it is closed and what was queued is reset *)
 TLClose == /\ IsEvent("lclose")
@@ -71,7 +81,12 @@ TGot == /\ IsEvent("got")
               /\ ~(hpc[Ev.i] = "read" /\ (unread[Ev.i] # <<>> \/ dclosed[Ev.i]))
               /\ UNCHANGED vars
 
-TCDial == IsEvent("cdial") /\ CDial /\ (Ev.ok <=> lopen)
+TCDial == /\ IsEvent("cdial")
+          /\ IF Rendezvous
+             THEN CDial /\ (Ev.ok <=> lopen)
+             ELSE /\ (Ev.ok => hpc[1] \notin {"none", "refused"})
+                  /\ (~Ev.ok => hpc[1] = "refused")
+                  /\ UNCHANGED vars
 TCRet == /\ IsEvent("cret") /\ CReturn
          /\ (Ev.res = "nil") <=> (outcome = "refuse" \/ hpc[1] = "refused")
 TCWrite == IsEvent("cwrite") /\ CWrite(Ev.cls)
@@ -105,18 +120,36 @@ TRet == IsEvent("ret") /\ (MustSucceed => Ev.ok) /\ UNCHANGED vars
 TFs  == IsEvent("fs") /\ (MustSucceed => Ev.same) /\ UNCHANGED vars
 TEnd == IsEvent("end") /\ UNCHANGED vars
 
-(* steps of the code the harness does not see; on TCP also the client's connection and Accept *)
+(* TCP: the recording connection handed out by the wrapping listener saw the handler's first  *)
+(* Read return (hello: it was exactly the greeting) / its Write of the server greeting begin;  *)
+(* the recording connection returned by the connector saw the client's first Read return.      *)
+TSRead == /\ IsEvent("sread") /\ ~Rendezvous
+          /\ HRead(Ev.i) /\ (Ev.hello <=> hpc'[Ev.i] = "reply")
+TSReply == IsEvent("sreply") /\ ~Rendezvous /\ HReply(Ev.i)
+TCRead == /\ IsEvent("cread") /\ ~Rendezvous
+          /\ CRead /\ (Ev.cls = "hello" <=> creply = "hello")
+
+(* steps of the code the harness does not see.  On TCP the kernel completes a connect some    *)
+(* time before the harness logs it, and delivers the reply / the close to the client's end on  *)
+(* its own: these steps are taken just before the event that shows them.                       *)
+NextIs(e) == More /\ Ev.e = e
 TSilent ==
     /\ More /\ UNCHANGED l
     /\ \/ ACheck \/ AAcceptErr
-       \/ \E i \in Conns : HRead(i) \/ HReplyFail(i) \/ HCas(i) \/ HCloseListener(i)
-       \/ CCheck2 \/ CWriteErr \/ CRead \/ SelectConn \/ TimerFires \/ SendAction
-       \/ (~Rendezvous /\ (AAccept \/ CDial \/ CReturn \/ CWrite("hello") \/ ProxyReply \/ ProxyEof
-                           \/ (\E i \in Conns : HReply(i))
-                           \/ (\E i \in Strays : Arrive(i))))
+       \/ \E i \in Conns : HReplyFail(i) \/ HCas(i) \/ HCloseListener(i)
+       \/ (Rendezvous /\ \E i \in Conns : HRead(i))
+       \/ CCheck2 \/ CWriteErr \/ SelectConn \/ TimerFires \/ SendAction
+       \/ (Rendezvous /\ CRead)
+       \/ (~Rendezvous /\ \E i \in Strays : /\ (NextIs("lclose") \/ (Ev.e \in {"arrive", "accept"} /\ Ev.i = i))
+                                              /\ Arrive(i))
+       \/ (~Rendezvous /\ NextIs("lclose") /\ AAccept)
+       \/ (~Rendezvous /\ (NextIs("lclose") \/ NextIs("cdial") \/ (NextIs("accept") /\ Ev.i = 1)) /\ CDial)
+       \/ (~Rendezvous /\ NextIs("cread") /\ (ProxyReply \/ ProxyEof))
+       \/ (Blind /\ (AAccept \/ \E i \in Conns : HRead(i) \/ HReply(i)))
 
 TNext == TReset \/ TArrive \/ TAccept \/ TLClose \/ TW \/ TClose \/ TGot
          \/ TCDial \/ TCRet \/ TCWrite \/ TCReply \/ TPEof \/ TCClose
+         \/ TSRead \/ TSReply \/ TCRead
          \/ TAct \/ TSAct \/ TInb \/ TIgn \/ TFed \/ TRet \/ TFs \/ TEnd \/ TSilent
 
 TSpec == TInit /\ [][TNext]_tvars
